@@ -985,7 +985,8 @@ theorem pay_runFrame' (p : Prog) (hh : Hist) (s : St) (f : Frame) (hpre : PayPre
   case exclActs sys i =>
     unfold doExclActs; split
     · refine inv_dl hpre (DL.push (by dleq) _) (by hq)
-    · rename_i a _
+    · exact inv_dl hpre (DL.push (DL.refl s) _) (by hq)
+    · rename_i a _ _
       split
       · exact inv_enqueue a hpre rfl rfl rfl (by hq)
       · exact inv_enqueue a hpre rfl rfl rfl (by hq)
